@@ -83,6 +83,31 @@ CLAIMED['C07'] = dict(
          'the underlying leaf model (C05)',
     technique='TLA+ spec (CovSel.tla) with exact integer arithmetic model-checked by TLC; spec->code replay, exact comparison',
     design='6/C07')
+CLAIMED['C09'] = dict(
+    engine='SBMLOrder',
+    text='TLC checks for every declaration order of up to 3 (4) states and 2 (3) constants, ordered output selections and '
+         'fixed subsets that the double-argsort mechanism assigns the i-th vector entry to the i-th published name and that '
+         'the sensitivity request lists init(state) / constants for the free parameters in the published order (the '
+         'single-argsort variant is refuted as a negative control). For every enumerated configuration an SBML file with '
+         'that declaration order is generated and loaded with SBMLModel / PKPDModel / ReducedMechanisticModel; the solver '
+         'calls recorded by RefSim must equal the specification assignment literally and outputs and sensitivities must '
+         'equal the closed-form matrix-exponential solution and its derivatives. Library models are compared with their '
+         'documented equations integrated independently.',
+    note='CVODES cannot be built in the sandbox: RefSim (pure Python reference integrator) is the trusted solver stand-in; '
+         'models are linear chains plus an intermediate and a derived constant; tolerance 1e-6',
+    technique='TLA+ spec (SBMLOrder.tla) model-checked with TLC; spec->code replay on generated SBML models with solver-call '
+              'trace comparison and closed-form oracle',
+    design='6/C09')
+CLAIMED['C10'] = dict(
+    engine='Dosing',
+    text='Integer-time specification of the regimen translation, the pacing semantics, the regimen table and the cumulative '
+         'input; TLC checks that the (repaired) dose-count loop lists exactly the occurrences started up to the final time '
+         'for every regimen x final time in the grid (the as-found loop is refuted) and bounds the delivered amount. Every '
+         'case is replayed: table through PredictiveModel / PopulationPredictiveModel, delivery on an accumulator model '
+         'dosed directly or through the depot (keyword regimen and explicit protocol), compared at every half time unit.',
+    note='RefSim + myokit.PacingSystem stand in for the native solver; integer grid of regimens; dataset-derived regimens: C14',
+    technique='TLA+ spec (Dosing.tla) model-checked with TLC; spec->code replay with exact table comparison and mass balance',
+    design='6/C10')
 
 NOT_YET = {
 }
